@@ -153,7 +153,8 @@ Inductive diag :=
 | DNotFound              (* "<name>: step script not found" *)
 | DExec                  (* the child's err(1, "%s", command[0]) after execvp failed *)
 | DExited (n : Z)        (* "process group exited <n>" *)
-| DGroupFail.            (* "process group failure": the fork handshake timed out, see [run_fork] *)
+| DGroupFail             (* "process group failure": the fork handshake timed out, see [run_fork] *)
+| DEmptyCmd.             (* "<name>: empty step command" (/repo 8e76449) *)
 
 Record runres := mkrun {
   rr_argv : option (list bytes);   (* what was handed to execvp, if anything *)
@@ -289,8 +290,12 @@ Definition resolve_env (checked : bool) (env : bytes -> option bytes) (steps : l
    pipe after setsid(); the parent polls that pipe for about one second
    (waiteof(proc_pipe[0], 1000)).  [HsLate]: the child did not get that far in
    time - the parent prints "process group failure", waits for the child all
-   the same and returns the decoded status, or 1 when that is 0. *)
-Inductive handshake := HsOk | HsLate.
+   the same and returns the decoded status, or 1 when that is 0.
+   [HsLateIntr]: ... and while the parent is blocked in that waitpid(pid, &status, 0) a SIGTERM reaches it: the
+   handler is installed without SA_RESTART, waitpid returns -1 and step_fork returns 1 at once - the child is
+   neither waited for nor signalled (C07's window signal-during-group-failure).  Exec/RunnerBridge.v proves that
+   these three cases are exactly the exits of C07's transition system (Exec/KillDefs.v). *)
+Inductive handshake := HsOk | HsLate | HsLateIntr.
 
 Definition run_fork (checked : bool) (cv : cfgview) (trace : bool) (name : bytes)
     (kern : list bytes -> kres) (gotsig : Z) (hs : handshake) : outcome :=
@@ -311,4 +316,28 @@ Definition run_fork (checked : bool) (cv : cfgview) (trace : bool) (name : bytes
               Exited (mkrun (Some argv) v' (DGroupFail :: match k with KNoExec => [DExec] | KWait _ => [] end))
           end
       end
+  | HsLateIntr =>
+      match resolve checked cv trace name with
+      | RCrash => Crash
+      | RNone d => Exited (mkrun None notfound_exit d)
+      | RArgv argv => Exited (mkrun (Some argv) 1%Z [DGroupFail])      (* if (waitpid(pid, &status, 0) == -1) return 1; *)
+      end
   end.
+
+(* ---- step_exec as a whole -------------------------------------------------------------------
+   Between resolve_step_command and step_fork the source has, since /repo 8e76449, the test
+   `if (command[0] == NULL) { warnx("%s: empty step command", step_name); return 1; }`:
+   a command of which nothing is left after interpolation is refused before anything is
+   forked.  [echk] tells whether the source has the test (Gen_Exec.empty_command_checked);
+   without it the empty vector goes to step_fork and the child calls execvp(NULL, ...).
+   For every other outcome of the resolution step_exec is [run_fork]. *)
+Definition step_exec_run (echk checked : bool) (cv : cfgview) (trace : bool) (name : bytes)
+    (kern : list bytes -> kres) (gotsig : Z) (hs : handshake) : outcome :=
+  match resolve checked cv trace name with
+  | RArgv [] => if echk then Exited (mkrun None empty_exit [DEmptyCmd])
+                else run_fork checked cv trace name kern gotsig hs
+  | _ => run_fork checked cv trace name kern gotsig hs
+  end.
+
+(* the runner the source has now *)
+Definition step_exec_now := step_exec_run empty_command_checked find_step_null_checked.
